@@ -15,7 +15,7 @@ Definition representable (c : cat) : Prop :=
 
 Definition env_ok (c : cat) (x : cmd) : Prop :=
   match x with
-  | CreateSg _ _ t _ => t < MAXNANO1
+  | CreateSg _ _ t _ => MINNANO <= t < MAXNANO1
   | PruneIg id => prune_ig_env c id
   | Restore => representable c     (* no group starts before -2^63 ns (finding C16-restore-wraps-early-group-start) *)
   | _ => True
@@ -40,8 +40,11 @@ Proof.
   rewrite E. destruct c. reflexivity.
 Qed.
 
-Lemma wf_init : forall per sc, wf (init_cat per sc).
+Lemma wf_init_v : forall per sc cl, wf (init_cat_v per sc cl).
 Proof. intros. apply wf_b_iff. reflexivity. Qed.
+
+Lemma wf_init : forall per sc, wf (init_cat per sc).
+Proof. intros. apply wf_init_v. Qed.
 
 Lemma wf_step : forall c x, wf c -> env_ok c x -> wf (fst (apply true true c x)).
 Proof.
@@ -117,7 +120,7 @@ Definition representable_b (c : cat) : bool :=
   forallb (fun p => forallb (fun g => span_ok_b (sg_start g) (sg_end g)) (rp_sgs p) &&
                     forallb (fun g => span_ok_b (ig_start g) (ig_end g)) (rp_igs p)) (pols c).
 Definition env_ok_b (c : cat) (x : cmd) : bool :=
-  match x with CreateSg _ _ t _ => t <? MAXNANO1 | PruneIg id => prune_ig_env_b c id | Restore => representable_b c | _ => true end.
+  match x with CreateSg _ _ t _ => (MINNANO <=? t) && (t <? MAXNANO1) | PruneIg id => prune_ig_env_b c id | Restore => representable_b c | _ => true end.
 Fixpoint env_run_b (c : cat) (xs : list cmd) : bool :=
   match xs with [] => true | x :: r => env_ok_b c x && env_run_b (fst (apply true true c x)) r end.
 
